@@ -166,7 +166,7 @@ type c14Caller struct {
 	result    string
 	err       error
 	done      bool
-	lostReply bool // the response to this call was dropped by an injected write error
+	lostReply bool   // the response to this call was dropped by an injected write error
 	badParam  string // "" | "fails": a parameter that cannot be encoded - the call fails before anything is sent | "slow": encodes after a pause
 }
 
